@@ -13,7 +13,8 @@ RULE = ("random cases delete atoms / whole residues / both at rates 1-90 % from 
         "Reject cases: empty / REMARK-only / water-only / hydrogen-only input and unknown extensions "
         "must raise ValueError and nothing else. Non-trivial: the deletion removed >= 1 atom that a "
         "group set-up or interaction branch reads (any non-CB heavy atom of a residue that forms a "
-        "group, a backbone atom, or a ligand atom); distinct = distinct truncated texts.")
+        "group, a backbone atom, or a ligand atom); distinct = distinct truncated texts."
+        " 15 % of the truncations run with a parameter file that keeps penalised groups (then no site may be missing from the summary); 30 % carry neutral extra options.")
 ASSUMPTIONS = ["a truncation that leaves no atom the reader keeps belongs to the reject class"]
 TIMEOUT = {"quick": 1800, "thorough": 14400}
 
